@@ -59,7 +59,7 @@ REQUIRED = ["io_roundtrips", "io_tiff", "io_npy", "io_nrrd", "io_uint_to_float",
             "raster_saved_and_read", "raster_explicit_ranges", "raster_thin_tiles",
             "raster_whole_brain_coordinates",
             "rasters_after_inplace_edit", "rasters_of_derived_trees", "io_non_contiguous_input",
-            "io_small_integer_values",
+            "io_small_integer_values", "io_dtype_spelled_as_object_or_name", "rasters_one_voxel_thick",
             "transformer_reused", "rejected_calls_before_raster",
             "tap_get_samplers"]
 FLOOR = {"quick": 450, "thorough": 45000}
@@ -135,7 +135,12 @@ def check_io(ctx, case, tmp):
     if fmt.startswith("tiff"):
         kw = {}
         if case["save_dtype"]:
-            kw["dtype"] = np.dtype(case["save_dtype"]).type
+            # the same dtype as a scalar type, a dtype object or its name
+            sp_ = case["seed"] % 3
+            kw["dtype"] = [np.dtype(case["save_dtype"]).type, np.dtype(case["save_dtype"]),
+                           str(case["save_dtype"])][sp_]
+            if sp_:
+                ctx.count("io_dtype_spelled_as_object_or_name")
             stored, _ = convert(a4, case["save_dtype"])
         if case["compression"] is False:
             kw["compression"] = False
@@ -153,7 +158,10 @@ def check_io(ctx, case, tmp):
     if rd and rd.startswith("uint") and stored.dtype.name.startswith("uint") \
             and np.dtype(rd).itemsize < stored.dtype.itemsize:
         rd = None  # a narrowing integer cast wraps around: not a rescaling the statement speaks of
-    kw = {} if rd is None else {"dtype": np.dtype(rd).type}
+    kw = {} if rd is None else {"dtype": [np.dtype(rd).type, np.dtype(rd), str(rd)][
+        (case["seed"] // 3) % 3]}
+    if rd is not None and (case["seed"] // 3) % 3:
+        ctx.count("io_dtype_spelled_as_object_or_name")
     st = read_imgs(f, **kw)
     b = np.asarray(st.get_full())
     ctx.count("io_roundtrips")
@@ -254,6 +262,13 @@ def raster_tree(case):
                 break
             r[i] = r[pid[i]] * float(rng.uniform(0.8, 1.25))
         xyz[i] = xyz[pid[i]] + d * L
+    if case.get("planar") is not None:
+        # a neurite lying in a plane x = const (or y = const), thinner than a voxel: the raster is
+        # one voxel thick along that axis (and still has that axis)
+        ax = int(case["planar"])
+        c0 = np.floor(xyz[0, ax] / res[ax]) * res[ax] + 0.45 * res[ax]
+        xyz[:, ax] = c0
+        r = np.minimum(r, 0.3 * float(res[ax]))
     t = Tree(n, pid=pid.astype(np.int32), type=np.array([1] + [3] * (n - 1), dtype=np.int32),
              x=xyz[:, 0].astype(np.float32), y=xyz[:, 1].astype(np.float32),
              z=xyz[:, 2].astype(np.float32), r=r.astype(np.float32),
@@ -424,6 +439,8 @@ def _raster_pass(ctx, case, tmp, tree, pid, tf, res_arg, prefix, geom=None):
         return ctx.violation("raster-raised", f"{prefix}ToImageStack({res_arg}) raised {type(e).__name__}: "
                                               f"{str(e)[:200]} (z range {cmin[2]}..{cmax[2]})", case)
     ctx.count("rasters")
+    if case.get("planar") is not None:
+        ctx.count("rasters_one_voxel_thick")
     if len(set(np.round(st, 6))) > 1:
         ctx.count("raster_anisotropic")
     if any(abs(np.log2(s) - round(np.log2(s))) > 1e-9 for s in st):
@@ -574,6 +591,8 @@ def run(ctx):
                     "res_form": str(rng.choice(["list", "tuple", "array", "array32"]))}
             if rng.random() < 0.4:
                 case["derive"] = str(rng.choice(["sort", "reroot", "relink"]))
+            if rng.random() < 0.12 and not whole_brain:
+                case["planar"] = int(rng.integers(0, 2))
             if case["ranges"] == "slab":  # long thin segments, so that they cross the tile
                 case["step"], case["rscale"] = 6.0, 0.8
             if whole_brain:  # short segments (1-2 voxels of 1/8), still far longer than an ulp
